@@ -504,3 +504,54 @@ def t_explicit_stack(a, b):
         else:
             stack.pop()
     return out
+
+
+import math
+import re
+from fractions import Fraction as _Fr
+
+
+def t_eafp_attr(a):
+    x = _Fr(a, 3)
+    try:
+        m = x.magnitude         # only decimals have a magnitude
+    except AttributeError:
+        m = math.floor(2.5)
+    return m
+
+
+def t_flags(a):
+    f = re.VERBOSE | re.DOTALL
+    return f & re.DOTALL == re.DOTALL, 5 | 2, 6 & 3, 1 << 4
+
+
+_RX = re.compile(r"(?P<n>\d+)-(?P<rest>.*)").fullmatch
+
+
+def t_regex_const(a):
+    m = _RX("12-ab c")
+    none = _RX("x")
+    return m["n"], m.group("rest"), m.groups(), none is None
+
+
+_SEEN = set()
+
+
+def t_global_set(a, b):
+    key = ("k", a)
+    hit = key in _SEEN
+    _SEEN.add(key)
+    return hit
+
+
+def t_count_split(a):
+    s = "2020-05-17"
+    return s.count("-") + 1 == len(s.split("-")), s.split("-")[1]
+
+
+def t_gen_unpack(a, b):
+    def pairs():
+        for i, n in enumerate(("x", "y"), start=1):
+            yield f"{n}{i}", i * a
+    (p, q), (r, s) = pairs()
+    return p, q, r, s
